@@ -1,4 +1,5 @@
 pub mod blake2b;
+pub mod datau;
 pub mod cek_ref;
 pub mod flat_ref;
 pub mod nterm;
